@@ -82,6 +82,7 @@ const baseDefs = `{{define "h"}}{{.Y}}{{.S}}{{.Y}}{{end}}` +
 	`{{define "hs"}}{{.Y}}{{if has "a"}}<i>{{.S}}</i>{{end}}{{names}}{{.Y}}{{end}}` +
 	`{{define "q"}}<a href="/p?q={{.S}}">{{.Y}}<a href="{{.S}}">t</a>{{end}}` +
 	`{{define "op"}}<b title="{{.S}}{{end}}{{define "pg"}}{{template "op" .}} tail">{{.Y}}x</b>{{end}}` +
+	`{{define "row"}}<td title=a"b>{{.S}}</td>{{end}}{{define "tbl"}}{{.Y}}{{template "row" .}}{{end}}{{define "lst"}}{{.Y}}{{range .L}}{{template "row" $}}{{end}}{{end}}` +
 	`ROOT{{template "a" .}}`
 
 func scenarios() []scenario {
@@ -140,6 +141,11 @@ func scenarios() []scenario {
 			{{Kind: "exec", Name: "pg", Data: 0}, {Kind: "exec", Name: "pg", Data: 0}},
 			{{Kind: "exec", Name: "op", Data: 0}},
 			{{Kind: "tohtml", Name: "pg", Data: 1}},
+		}},
+		{"S14-broken-callee-on-its-own-and-through-two-callers", baseDefs, [][]call{
+			{{Kind: "exec", Name: "row", Data: 0}, {Kind: "exec", Name: "row", Data: 1}},
+			{{Kind: "exec", Name: "tbl", Data: 0}},
+			{{Kind: "tohtml", Name: "lst", Data: 0}},
 		}},
 		{"S7-execute-same-root-first-and-repeated", baseDefs, [][]call{
 			{{Kind: "execroot", Data: 0}},
